@@ -651,9 +651,20 @@ def check_tgen(case):
                     probs.append(("tgen:matrix_at:getitem", "row/column of matrix_at(%r, axes=%r) differ from the array slice" % (Iin, (a0, a1))))
     if not np.array_equal(X, X0):
         probs.append(("tgen:mutation", "the wrapped array was changed"))
-    # at most one report per key
+    # one defect, one key: map the item-kind signature of every failing expression to the smallest failing
+    # signature it contains; at most one report per key
+    sigs = {}
+    for k, m in probs:
+        if k.startswith("tgen:getitem:"):
+            base, sig = k.rsplit(":", 1)
+            sigs.setdefault(base, set()).add(frozenset(sig.split("+")))
     seen, out = set(), []
     for k, m in probs:
+        if k.startswith("tgen:getitem:"):
+            base, sig = k.rsplit(":", 1)
+            sig = frozenset(sig.split("+"))
+            mins = sorted((x for x in sigs[base] if x <= sig), key=lambda x: (len(x), sorted(x)))
+            k = base + ":" + "+".join(sorted(mins[0]))
         if k not in seen:
             seen.add(k)
             out.append((k, m))
